@@ -274,6 +274,22 @@ theorem table_extracted : extractorOk = true := by decide
 theorem discipline_table :
     (unsafeSites table).filter (fun x => !reviewedBenign.contains x) = knownUnlocked := by decide +kernel
 
+/-- the justification of the `ReloadAdminResources` exemption is itself checked against the table:
+    every in-package caller other than `init` holds the **write** lock around the call
+    (an admin mutator that only took the read lock would falsify this). -/
+theorem reload_callers_hold_write_lock : callersHoldW table "ReloadAdminResources" = true := by
+  decide +kernel
+
+/-- **the CRL generator's critical section**: reading the previous CRL, listing the revoked
+    certificates, building and storing the new list all happen inside one `crlMutex` section, and
+    all four calls are present. This is the mutual-exclusion hypothesis of C08's `numbers_increase`
+    and `on_revoke_visible` (a generation that lists revocations before taking the lock can
+    overwrite a newer list with a stale one). -/
+theorem crl_section :
+    crlLockedAtTop = true ∧ crlCalls.all (·.2) = true ∧
+    ["GetCRL", "GetRevokedCertificates", "CreateCRL", "StoreCRL"].all (fun n => crlCalls.any (·.1 == n)) = true := by
+  decide +kernel
+
 /-- nothing in the reviewed-benign list is stale -/
 theorem reviewed_current : reviewedBenign.all (fun x => (unsafeSites table).contains x) = true := by
   decide +kernel
